@@ -35,10 +35,12 @@ def leaf_post(name, ty, w, value, extra='', base=False):
 
 
 def bits_closure_head(struct, post_clauses, lifetime=None, requires=('data.1 == 0', 'small(data.0@.len() as int)')):
+    """typed header for the closure handed to `bits(..)`; one ensures clause per line so that a failed clause is
+    identified by its line in the verifier's report"""
     lt = "&'a [u8]" if lifetime else '&[u8]'
-    req = ', '.join(requires)
-    ens = ', '.join(post_clauses)
-    return 'bits(move |data: (%s, usize)| -> (r: IResult<(%s, usize), %s>) requires %s, ensures %s, {' % (lt, lt, struct, req, ens)
+    req = ''.join('\n            %s,' % x for x in requires)
+    ens = ''.join('\n            %s,' % x for x in post_clauses)
+    return 'bits(move |data: (%s, usize)| -> (r: IResult<(%s, usize), %s>)\n        requires%s\n        ensures%s\n    {\n        proof { at_self(data); }' % (lt, lt, struct, req, ens)
 
 
 def signed_closure(w):
